@@ -173,7 +173,14 @@ def generate(rng, tier):
         seen.add(full)
         lang = "tr" if rng.random() < 0.1 else "en"
         mag = max(mags + [abs(exp)])
-        cases.append(exec_case(full, lang, kind=phrase + ("-money" if x.code else ""), nlines=full.count("\n") + 1,
+        pre_ops, kind = [], phrase + ("-money" if x.code else "")
+        if "[" not in full and rng.random() < 0.25:
+            # the same phrase written in the other convention (decimal '.', thousands ','): both percent spellings and
+            # every literal are read through the configured separators
+            full = full.translate(str.maketrans(",.", ".,"))
+            pre_ops = [{"op": "set_dec", "v": "."}, {"op": "set_thou", "v": ","}]
+            kind += "-dot"
+        cases.append(exec_case(full, lang, pre=pre_ops, kind=kind, nlines=full.count("\n") + 1,
                                expect=[exp.numerator, exp.denominator], mag=[mag.numerator, mag.denominator],
                                typ=typ, cur=x.code))
     return cases
